@@ -2,11 +2,11 @@
 package mon
 
 import (
-	"runtime/debug"
-	"os"
-	"strconv"
 	"encoding/json"
 	"fmt"
+	"os"
+	"runtime/debug"
+	"strconv"
 	"strings"
 
 	"github.com/openconfig/ygot/ygot"
